@@ -3,7 +3,10 @@ package main
 import (
 	"fmt"
 	"go/ast"
+	"go/constant"
+	"go/token"
 	"go/types"
+	"math"
 	"sort"
 	"strings"
 
@@ -22,7 +25,7 @@ func init() {
 			"D5 window loops of the dense read paths (ForEach, Bins, Encode, encodeSparsely) cover minIndex…maxIndex inclusive (ToProto/EncodeProto/encodeDensely/Reweight are checked by C09/C06/C16). "+
 			"D6 the window-moving primitives of the dense store as linear forms — shiftCounts copies bins[min−off … max−off] to +shift, resets exactly the vacated slots for either sign of the shift and updates offset −= shift; resetBins zeroes bins[from−off … to−off]; centerCounts stores the new window and shifts by offset + len/2 − (newMin + (newMax−newMin+1)/2); truncating integer division is only applied to widths and lengths. "+
 			"D9 page table of the paginated store — the slice of pages and the index of its first page are written only by the page accessor (resolved by role, with the helpers split off it), by Clear, or into a fresh object; elements of a page obtained from the accessor are touched only on paths that created the page (ensureExists is the constant true) or established by its length that it is not empty (Clear keeps emptied slots: a nil test is not enough). "+
-			"SHARED (obligations of other properties that decide clauses this property states too, re-evaluated here under their home rule ids): for DenseStore, SparseStore and BufferedPaginatedStore only — C01-D3 as C04-D7 (rank lookup: first index whose cumulative weight strictly exceeds the rank, buffer sorted first), C02-D2/D3/D4 (merge from any store kind, argument neither written nor captured, cached total and window follow), C14-D2 (Copy defines every field, deep), C15-D1 (Clear covers every written field), C16-D2 (Reweight scales everything held). C09-D3 for the MergeWithProto loops (every bin of a message is added at its own index). "+
+			"SHARED (obligations of other properties that decide clauses this property states too, re-evaluated here under their home rule ids): for DenseStore, SparseStore and BufferedPaginatedStore only — C05-D8 for DenseStore.extendRange (the new window contains the requested range and, on a non-empty store, the old window: bounds are min / max of requested and current). C01-D3 as C04-D7 (rank lookup: first index whose cumulative weight strictly exceeds the rank, buffer sorted first), C02-D2/D3/D4 (merge from any store kind, argument neither written nor captured, cached total and window follow), C14-D2 (Copy defines every field, deep), C15-D1 (Clear covers every written field), C16-D2 (Reweight scales everything held). C09-D3 for the MergeWithProto loops (every bin of a message is added at its own index). "+
 			"NOT DECIDED: that weights are never lost, duplicated or misattributed by normalize/extendRange/shiftCounts/page()/compact() — value statements about counts.",
 		"one obligation per store × entry point, per fold site, per callback call site, per window loop, per twin path",
 		false, runC04)
@@ -39,9 +42,12 @@ func runC04(c *Ctx) {
 	c04Total(c, impls)
 	c04Iteration(c, impls, "C04-D3")
 	c04Extremes(c, impls)
+	c04SparseFolds(c, "C04-D4")
 	c04Windows(c)
 	c04Shift(c, "C04-D6")
 	c04Normalize(c, "C04-D6")
+	// extending the dense window keeps the requested range and the old window inside the new one
+	c.shared(func() { c05ExtendPost(c) }, keyMentions("DenseStore.extendRange"))
 	c05Halving(c, "C04-D6")
 	// the property also speaks of rank lookups, merges from any store kind, copies, clears and reweightings of the
 	// three non-collapsing stores: the obligations that decide those clauses live with C01, C02, C14, C15 and C16
@@ -1277,4 +1283,151 @@ func c04Normalize(c *Ctx, rule string) {
 		}
 	}
 	c.R.check(bad == "" && len(paths) > 0, rule, "DenseStore.normalize/slot-inside-window", shortFn(f), c.fpos(f), "slot = index − offset, handed out only for an index inside the window or after extending the range to it", firstNonEmpty(bad, fmt.Sprintf("%d path(s)", len(paths))))
+}
+
+// c04SparseFolds: the sparse store answers its extremes and its total by folding over the map. MaxIndex / MinIndex:
+// the running extreme starts at the opposite end of the int range and is replaced by a key exactly on the outcome
+// `key > running` (resp. `<`) of the comparison; TotalCount: a running sum of the map's values from 0.
+func c04SparseFolds(c *Ctx, rule string) {
+	sp := c.P.NamedType(pkgStore, "SparseStore")
+	if sp == nil {
+		return
+	}
+	mapKV := func(v ssa.Value, idx int) bool { // v is the key (idx 1) / value (idx 2) of a map iteration
+		ex, ok := v.(*ssa.Extract)
+		if !ok || ex.Index != idx {
+			return false
+		}
+		_, isNext := ex.Tuple.(*ssa.Next)
+		return isNext
+	}
+	for _, side := range []struct {
+		name string
+		max  bool
+	}{{"MaxIndex", true}, {"MinIndex", false}} {
+		f := c.P.DeclaredMethod(sp, side.name)
+		if f == nil {
+			continue
+		}
+		bad := "no fold over the map's keys found"
+		for _, b := range f.Blocks {
+			for _, in := range b.Instrs {
+				cmp, ok := in.(*ssa.BinOp)
+				if !ok {
+					continue
+				}
+				var key ssa.Value
+				var run *ssa.Phi
+				keyLeft := false
+				if mapKV(cmp.X, 1) {
+					if p, ok := cmp.Y.(*ssa.Phi); ok {
+						key, run, keyLeft = cmp.X, p, true
+					}
+				} else if mapKV(cmp.Y, 1) {
+					if p, ok := cmp.X.(*ssa.Phi); ok {
+						key, run = cmp.Y, p
+					}
+				}
+				if key == nil {
+					continue
+				}
+				// orientation: true outcome means "key beyond the running extreme"
+				greater := cmp.Op == token.GTR || cmp.Op == token.GEQ // X > Y
+				less := cmp.Op == token.LSS || cmp.Op == token.LEQ
+				if !greater && !less {
+					continue
+				}
+				keyBeyond := keyLeft && (side.max && greater || !side.max && less) || !keyLeft && (side.max && less || !side.max && greater)
+				bad = ""
+				if !keyBeyond {
+					bad = "the running extreme is replaced on the wrong outcome of " + cmp.String()
+				}
+				// the comparison controls an if whose taken branch carries the key into the running extreme
+				var iff *ssa.If
+				if refs := cmp.Referrers(); refs != nil {
+					for _, r := range *refs {
+						if i, ok := r.(*ssa.If); ok {
+							iff = i
+						}
+					}
+				}
+				if iff == nil {
+					bad = firstNonEmpty(bad, "the comparison does not control the replacement")
+					continue
+				}
+				taken, notTaken := iff.Block().Succs[0], iff.Block().Succs[1]
+				carried := false
+				for _, e := range run.Edges {
+					if m, ok := e.(*ssa.Phi); ok {
+						for i, me := range m.Edges {
+							pred := m.Block().Preds[i]
+							if me == key && (pred == taken || pred == iff.Block() && m.Block() == taken) {
+								carried = true
+							}
+							if me == key && (pred == notTaken || pred == iff.Block() && m.Block() == notTaken) {
+								bad = firstNonEmpty(bad, "the key replaces the running extreme on the FALSE outcome of "+cmp.String())
+							}
+						}
+					}
+				}
+				if !carried {
+					bad = firstNonEmpty(bad, "the taken branch does not carry the key into the running extreme")
+				}
+				// initial value: the opposite end of the int range
+				okInit := false
+				for _, e := range run.Edges {
+					if k, ok := e.(*ssa.Const); ok && k.Value != nil {
+						if v, exact := constantInt64(k); exact && (side.max && v <= math.MinInt32 || !side.max && v >= math.MaxInt32) {
+							okInit = true
+						}
+					}
+				}
+				if !okInit {
+					bad = firstNonEmpty(bad, "the running extreme does not start at the opposite end of the int range")
+				}
+			}
+		}
+		c.R.check(bad == "", rule, "SparseStore."+side.name+"/fold", shortFn(f), c.fpos(f), "running extreme from the opposite end of the int range, replaced by a key exactly when the key lies beyond it", firstNonEmpty(bad, "ok"))
+	}
+	if f := c.P.DeclaredMethod(sp, "TotalCount"); f != nil {
+		ok := false
+		found := "no running sum of the map's values found"
+		for _, b := range f.Blocks {
+			for _, in := range b.Instrs {
+				p, isPhi := in.(*ssa.Phi)
+				if !isPhi {
+					continue
+				}
+				zero, step := false, false
+				for _, e := range p.Edges {
+					if k, isC := e.(*ssa.Const); isC && k.Value != nil && k.Value.String() == "0" {
+						zero = true
+					}
+					if bo, isB := e.(*ssa.BinOp); isB {
+						if bo.Op == token.ADD && (bo.X == ssa.Value(p) && mapKV(bo.Y, 2) || bo.Y == ssa.Value(p) && mapKV(bo.X, 2)) {
+							step = true
+						} else {
+							found = "the total is updated with " + bo.String()
+						}
+					}
+				}
+				if zero && step {
+					// … and it is what is returned
+					for _, b2 := range f.Blocks {
+						if r, isR := b2.Instrs[len(b2.Instrs)-1].(*ssa.Return); isR && len(r.Results) == 1 && r.Results[0] == ssa.Value(p) {
+							ok = true
+						}
+					}
+				}
+			}
+		}
+		c.R.check(ok, rule, "SparseStore.TotalCount/fold", shortFn(f), c.fpos(f), "total = φ(0, total + value) over the map, returned", map[bool]string{true: "ok", false: found}[ok])
+	}
+}
+
+func constantInt64(k *ssa.Const) (int64, bool) {
+	if k.Value == nil || k.Value.Kind() != constant.Int {
+		return 0, false
+	}
+	return constant.Int64Val(k.Value)
 }
